@@ -31,7 +31,9 @@ def run(tier, wd):
         tries = 0
         while len(seen) < per_spec and tries < per_spec * 6:
             tries += 1
-            items = g.sample_items(p, s["ast"], rnd)
+            raw = rnd.random() < 0.15
+            # 15% of the classes: values with a byte that is not valid UTF-8 (written ~ here and inside TLC)
+            items = g.sample_items(p, s["ast"], rnd, vals=("c~f", "~", "v~")) if raw else g.sample_items(p, s["ast"], rnd)
             if rnd.random() < 0.5:
                 items = g.shuffle_runs(items, rnd)
             if rnd.random() < 0.25:
@@ -48,7 +50,7 @@ def run(tier, wd):
             nseq += 1
             # a quarter of the classes with one or two options backed by the environment (the same for every member)
             env = sorted(rnd.sample(KEYS, rnd.choice([1, 2]))) if rnd.random() < 0.25 else []
-            groups.append({"rel": "respell", "members": [{"si": si, "env": env, "argv": l} for l in lines]})
+            groups.append({"rel": "respell", "members": [dict({"si": si, "env": env, "argv": l}, **({"rawbyte": True} if raw else {})) for l in lines]})
     triples = gc.run_groups(rep, wd, binpath, [p], specs, groups, "respell")
     gc.finish_groups(rep, [p], specs, triples,
                      "a group = one --free spec x one item sequence (a random sentence of the spec or a one-item perturbation of one) "
